@@ -138,7 +138,7 @@ func (m *Memory) Remove(node ocispec.Descriptor) []ocispec.Descriptor {
 		// not remove the entry.
 		if len(predecessorEntry) == 0 {
 			delete(m.predecessors, successorKey)
-			if _, exists := m.nodes[successorKey]; exists {
+			if _, exists := m.nodes[successorKey]; exists && !m.digestReferenced(successorKey.Digest) {
 				danglings = append(danglings, m.nodes[successorKey])
 			}
 		}
@@ -146,6 +146,20 @@ func (m *Memory) Remove(node ocispec.Descriptor) []ocispec.Descriptor {
 	delete(m.successors, nodeKey)
 	delete(m.nodes, nodeKey)
 	return danglings
+}
+
+// digestReferenced reports whether the content identified by dgst still has a
+// predecessor under any media type. The same blob may be referenced with
+// different media types by different manifests, while a content-addressable
+// storage holds it only once, so it is not dangling as long as one of them is.
+// The caller must hold m.lock.
+func (m *Memory) digestReferenced(dgst digest.Digest) bool {
+	for key, predecessors := range m.predecessors {
+		if key.Digest == dgst && len(predecessors) > 0 {
+			return true
+		}
+	}
+	return false
 }
 
 // DigestSet returns the set of node digest in memory.
